@@ -48,7 +48,7 @@ for p in props:
                               ["Lawful env pair for the concrete BLS12-381 environment (L0); PROVEN for it: scalar field, canonical codecs, "
                                "G1 and G2 are the elliptic-curve groups with the executable operations and prime-order modules over the scalar "
                                "field (Zk.ConcreteG1, Zk.ConcreteG2), every model function commutes with homomorphisms (Zk.Transfer); still "
-                               "ASSUMED: the pairing is bilinear and non-degenerate, hash_to_curve lands in the prime-order subgroup"]),
+                               "ASSUMED: the pairing is bilinear and non-degenerate, cofactor clearing lands in the prime-order subgroup (hash_to_curve outputs are on the curve: proven, Zk.ConcreteH2C)"]),
               "theorems": thms}
     print(p, len(thms), "theorems", mods)
 json.dump(reg, open("/verif/theorems.json", "w"), indent=1)
